@@ -150,3 +150,18 @@ func recSummary() string {
 	}
 	return sb.String()
 }
+
+// regTag registers a tag the harness needs at start-up. A panic (the tree under test rejects a
+// documented-valid name) must not kill the harness: it is recorded and reported by the C18 check;
+// parts that need the tag fail on the nil tag instead (exit 2 for those, they are not about C18).
+var tagInitFailures []string
+
+func regTag(name string) (t *log.Tag) {
+	defer func() {
+		if r := recover(); r != nil {
+			tagInitFailures = append(tagInitFailures, fmt.Sprintf("RegisterTag(%q) panicked: %v", name, r))
+			t = nil
+		}
+	}()
+	return log.RegisterTag(name)
+}
